@@ -1020,7 +1020,7 @@ def attribute_all(items, backend):
                 except Exception:
                     pass
             if fid is None and backend == "torch" and b == "EXC" and a != "EXC" and t[0] == "dy" \
-                    and any(u[0] == "dy" and u[1] == "=" for u in (t[2], t[3])):
+                    and any(u is not t and u[0] == "dy" and u[1] == "=" for u in subtrees(t)):
                 fid = "C05-torch-equal-operand"
             if fid is None:
                 # a variable-free division that is :undefined on its own, compiled as part of t
